@@ -103,7 +103,18 @@ Shape(k, S(_)) ==
                                  << Linked("topPet", <<ScalarA("Outer", "", <<A("s", S("client-field-string-arg"))>>), ScalarA("Outer", "o2", <<A("s", Var("u"))>>)>>),
                                     LinkedA("top", "", <<A("n", IntV("2"))>>, Nick), search >>),
                               Entrypoint("Query", "Home") >>)
-Shapes == 1 .. 4
+       \* 5, 6 (added after seeded/C13-lazyload-dynamic-import-without-extension, whose author also showed two defects
+       \* of the unchanged tree that shapes 1-4 could not reach): entrypoint directives (@lazyLoad: the two dynamic
+       \* import() loaders of entrypoint.ts), a client field with variables that NO entrypoint reaches (its param_type.ts
+       \* still imports ./parameters_type), an entrypoint literal that spans lines (no_babel_transform: iso.ts `case '...'`)
+       [] k = 5 -> Program(<< tag, card,
+                              Field("User", "Unused", <<VarDef("n", TInt)>>, <<LinkedA("pets", "", <<A("first", Var("n"))>>, <<Scalar("id")>>)>>),
+                              Component("Query", "Home", uvar, << Linked("me", <<Scalar("name"), Scalar("Card")>>), Linked("topPet", <<Scalar("nickname"), tagsel>>), search, after >>),
+                              [k |-> "entrypoint", on |-> "Query", name |-> "Home", dirs |-> <<[name |-> "lazyLoad", args |-> <<>>]>>] >>)
+       [] k = 6 -> Program(<< tag, card,
+                              Component("Query", "Home", uvar, << Linked("me", <<Scalar("name"), Scalar("Card")>>), Linked("topPet", <<Scalar("nickname"), tagsel>>), search, after >>),
+                              [k |-> "entrypoint", on |-> "Query", name |-> "Home", multiline |-> TRUE] >>)
+Shapes == 1 .. 6
 
 \* ---- state space -----------------------------------------------------------------------------------
 VARIABLES shape, slot, cls, opts
